@@ -45,16 +45,36 @@ def mkRoutesUpdate (entries : List (RouteKey × Option Nat)) : List (RouteKey ×
 def mkRoutes (entries : List (RouteKey × Nat)) : List (RouteKey × Nat) :=
   entries.foldl (fun acc e => routeInsert acc e.1 e.2) []
 
+/-- One node of a peer list: host id, address, datacenter, rack (numbers stand for the values; 0 = unknown dc / rack). -/
+structure NodeAttr where
+  host : Nat
+  addr : Nat
+  dc : Nat := 0
+  rack : Nat := 0
+  deriving Repr, DecidableEq
+
+/-- A topology = the peer list of a fetch. A numeric literal `t` denotes the one-node topology whose node has host
+id and address `t` (what the `slot` / tag-based cases hand over). -/
+structure Topo where
+  nodes : List NodeAttr
+  deriving Repr, DecidableEq
+
+def Topo.single (t : Nat) : Topo := ⟨[{ host := t, addr := t }]⟩
+
+instance (n : Nat) : OfNat Topo n := ⟨Topo.single n⟩
+
 /-- `Metadata` as far as the merges look at it: topology tag and (optional) client routes. -/
 structure Meta where
-  peers : Nat
+  peers : Topo
+  /-- identity of the full fetch this metadata came from (ghost: the time that fetch was started; untouched by merges). -/
+  stamp : Nat := 0
   clientRoutes : Option (List (RouteKey × Nat)) := none
   deriving Repr, DecidableEq
 
 /-- `PartialMetadataChanges`. -/
 structure Partial where
   clientRoutes : Option (List (RouteKey × Option Nat)) := none
-  peers : Option Nat := none
+  peers : Option Topo := none
   deriving Repr, DecidableEq
 
 /-- `MetadataChanges`. -/
@@ -93,7 +113,7 @@ def mergeClientRoutes (slot : Option Update) (upd : List (RouteKey × Option Nat
     | none => some u                                            -- warn!, return
     | some routes => some { u with changes := some (.full { m with clientRoutes := some (routesApply routes upd) } rs) }
 
-def mergeTopology (slot : Option Update) (peers : Nat) : Option Update :=
+def mergeTopology (slot : Option Update) (peers : Topo) : Option Update :=
   let u := slotMut slot
   match u.changes with
   | none => some { u with changes := some (.part { peers := some peers }) }
@@ -108,7 +128,7 @@ def mergeHint (slot : Option Update) (addr : Nat) (up : Bool) : Option Update :=
 inductive Op where
   | metadata (m : Meta) (refresh : Option Nat)
   | clientRoutes (upd : List (RouteKey × Option Nat))
-  | topology (peers : Nat)
+  | topology (peers : Topo)
   | hint (addr : Nat) (up : Bool)
   deriving Repr
 
@@ -128,7 +148,7 @@ def refreshIds : Option Update → List Nat
   | _ => []
 
 /-- Topology the consumer will apply when it takes the slot. -/
-def peersTag : Option Update → Option Nat
+def peersTag : Option Update → Option Topo
   | some { changes := some (.full m _), .. } => some m.peers
   | some { changes := some (.part p), .. } => p.peers
   | _ => none
@@ -149,19 +169,24 @@ def routesOf : Option Update → Option (List (RouteKey × Option Nat))
   | some { changes := some (.part p), .. } => p.clientRoutes
   | _ => none
 
+/-- The identity (`stamp`) of the full fetch whose metadata the slot's update carries, if it carries one. -/
+def fullStamp : Option Update → Option Nat
+  | some { changes := some (.full m _), .. } => some m.stamp
+  | _ => none
+
 /-- The refresh id an operation attaches. -/
 def Op.refresh : Op → List Nat
   | .metadata _ (some r) => [r]
   | _ => []
 
 /-- The topology an operation carries. -/
-def Op.topo : Op → Option Nat
+def Op.topo : Op → Option Topo
   | .metadata m _ => some m.peers
   | .topology p => some p
   | _ => none
 
 /-- The topology of the last topology-carrying operation. -/
-def lastTopo : List Op → Option Nat
+def lastTopo : List Op → Option Topo
   | [] => none
   | op :: rest =>
     match lastTopo rest with
